@@ -41,3 +41,23 @@ Proof. exact eval_after. Qed.
 (* puncturing one tag never affects another: tags are told apart by their bit strings *)
 Theorem C14_tags_distinct : forall a b : N, (a < 256)%N -> (b < 256)%N -> md_bits a = md_bits b -> a = b.
 Proof. exact md_bits_inj. Qed.
+
+(* export + import: reading the exported bytes back gives exactly the exporter's state (key, public key, PRG keys,
+   retained prefixes with seeds, punctured list), whatever follows the state in the buffer; so the copy that the
+   history theorem above uses for export+import is what the byte-level reader computes.  The premise is a
+   boolean (lengths fit their 64-bit headers, tags sorted, 32-byte fields, canonical key) that the correspondence
+   run evaluates on every exported state. *)
+From StarV Require Import KeyStateFacts.
+Theorem C14_export_import : forall (s : server) (rest : bytes),
+  server_okb s = true -> server_from_bincode (server_to_bincode s ++ rest) = Some s.
+Proof. exact server_roundtrip_b. Qed.
+Theorem C14_export_import_spec : forall (s : server) (rest : bytes),
+  server_ok s -> server_from_bincode (server_to_bincode s ++ rest) = Some s.
+Proof. exact server_roundtrip. Qed.
+(* non-vacuity: a server after two punctures (one of them an extreme tag) meets the premise and is read back *)
+Example C14_export_import_example :
+  let s0 := {| sv_key := 5; sv_pk := {| pk_base := repeat 1%N 32; pk_md := [(0%N, repeat 2%N 32); (7%N, repeat 3%N 32); (255%N, repeat 9%N 32)] |};
+               sv_k0 := repeat 4%N 32; sv_k1 := repeat 6%N 32; sv_ggm := ginit bytes (repeat 7%N 32) (repeat 8%N 32) |} in
+  let s := after keccak_bytes s0 [7%N; 255%N] in
+  server_okb s = true /\ server_from_bincode (server_to_bincode s) = Some s /\ length (gPunctured bytes (sv_ggm s)) = 2%nat.
+Proof. vm_compute. repeat split. Qed.
